@@ -135,6 +135,28 @@ def run(ck: Check) -> int:
             for x, m in nb:
                 if m and not equiv(s, x, ci, win, False):
                     ck.report(Failing(f'escape({s!r}) also matches {x!r}', {'api': 'fnmatch', 's': s, 'pattern': pat, 'other': x, 'flags': fl}, False, True), None)
+            # ---- the same on bytes (RAWCHARS in half of the runs; added after seeded change C09f: the bytes twin of the
+            # escaped-backslash entry of the RAWCHARS table lost its raw prefix)
+            if k % 3 == 0 and all(ord(ch) < 256 for ch in s):
+                sb = s.encode('latin-1')
+                bfl = fl | (F.RAWCHARS if k % 2 == 0 else 0)
+                try:
+                    with common.time_limit(5):
+                        pb = F.escape(sb)
+                        okb = F.fnmatch(sb, pb, flags=bfl)
+                        okg = G.globmatch(sb, G.escape(sb, unix=not win), flags=(G.FORCEWIN if win else G.FORCEUNIX) | (G.RAWCHARS if k % 2 == 0 else 0))
+                        nbb = [(x, F.fnmatch(x.encode('latin-1'), pb, flags=bfl)) for x in neighbours(R, s) if all(ord(ch) < 256 for ch in x)]
+                    sr.evaluations += 2 + len(nbb)
+                    sr.histogram['bytes'] = sr.histogram.get('bytes', 0) + 1
+                    if not okb:
+                        ck.report(Failing(f'fnmatch({sb!r}, escape(s)={pb!r}) is False', {'api': 'fnmatch', 's': repr(sb), 'pattern': repr(pb), 'flags': bfl}, True, False), None)
+                    if not okg and '\n' not in s:
+                        ck.report(Failing(f'globmatch({sb!r}, escape(s)) is False', {'api': 'globmatch', 's': repr(sb), 'flags': bfl}, True, False), None)
+                    for x, m in nbb:
+                        if m and not equiv(s, x, ci, win, False):
+                            ck.report(Failing(f'escape({sb!r}) also matches {x!r} (bytes)', {'api': 'fnmatch', 's': repr(sb), 'pattern': repr(pb), 'other': x, 'flags': bfl}, False, True), None)
+                except common.CallTimeout:
+                    pass
             # ---- glob.escape on paths (Unix rules and Windows rules)
             gfl = gen.random_flags(R, gbits, 0.3, G.FORCEWIN if win else G.FORCEUNIX)
             gci = (bool(gfl & G.IGNORECASE) or win) and not (gfl & G.CASE)
